@@ -117,7 +117,7 @@ impl SignedRefsAt {
         ensures r is Ok ==> ((r->Ok_0 is Some) == (stored_at(remote) is Some)) && (r->Ok_0 is Some ==> r->Ok_0->Some_0.at == stored_at(remote)->Some_0 && r->Ok_0->Some_0.remote == remote)
     { unimplemented!() }
 }
-pub struct Validations;
+pub struct Validations { pub opaque: u64 } // (a field: two values must be distinguishable, their ghost emptiness differs)
 impl Validations {
     #[verifier::external_body] pub fn default() -> Validations { unimplemented!() }
     #[verifier::external_body] pub fn push(&mut self, v: sigrefs::Validation) { unimplemented!() }
